@@ -98,3 +98,26 @@ pub fn drive<C: BlsSignatureImpl + Clone + Send + Sync + 'static>(group: &'stati
     all.push(json!({"ev": "Summary", "proc": proc_id, "group": group, "calls": calls, "gens": gens.len()}));
     all
 }
+
+/// Volume: `per_thread` calls of the cheapest randomized entry point on each of `threads` threads; only the
+/// generator fingerprints are kept (hook).  A seed space that is too small (a 32-bit seed) shows as repeats here
+/// long before it shows in the per-entry-point rounds.
+pub fn bulk_fingerprints(threads: usize, per_thread: usize) -> Vec<[u8; 16]> {
+    blsful::verif_hooks::rng_take();
+    blsful::verif_hooks::rng_observe(true);
+    let mut hs = vec![];
+    for _ in 0..threads {
+        hs.push(std::thread::spawn(move || {
+            let mut acc = 0u8;
+            for _ in 0..per_thread {
+                acc ^= ProofCommitmentChallenge::<Bls12381G1Impl>::new().to_be_bytes()[31];
+            }
+            acc
+        }));
+    }
+    for h in hs {
+        let _ = h.join();
+    }
+    blsful::verif_hooks::rng_observe(false);
+    blsful::verif_hooks::rng_take().into_iter().map(|(_, fp)| fp).collect()
+}
